@@ -409,6 +409,9 @@ fn run(plan: &Plan, ctx: &mut Ctx) -> R {
                 // only vtrees that split near the middle keep such a conjunction one wide node; on linear or random vtrees
                 // far-apart pairs make it exponential, so a single pair is used there
                 let kmax = if matches!(plan.get("vt_shape"), 2 | 3) { 6 } else { 1 };
+                // (the second route -- pairs conjoined back to front -- only with compression on: without it the
+                // intermediate conjunctions of far-apart pairs are not merged and grow exponentially)
+                r.flag = r.flag && compress;
                 r.chain = if plan.get_or("wide_chain", 0) != 0 {
                     ((op.a[0].unsigned_abs() as usize).clamp(1, 11), op.a[1].unsigned_abs() as usize)
                 } else {
